@@ -45,6 +45,18 @@ Theorem no_slot_read_before_written : forall P combine k (l : list (source P)) s
 Proof. exact chunked_grab_no_panic. Qed.
 Print Assumptions no_slot_read_before_written.
 
+(* ---- the glue in front of the fetch: command line -> source lists ---- *)
+(* the sources are a LIST: every positional mention is fetched and merged (repeats included, order
+   kept) unless the first of several arguments is a binary; -base / -diff_base values likewise,
+   minus the empty ones *)
+Theorem cli_keeps_every_mention : forall A (is_empty : A -> bool) (args base : list A),
+  args <> [] ->
+  cli_source_lists A is_empty false args base [] = CliOk args (filter (fun a => negb (is_empty a)) base) false
+  /\ (forall d0 d, is_empty d0 = false ->
+       cli_source_lists A is_empty false args [] (d0 :: d) = CliOk args (d0 :: filter (fun a => negb (is_empty a)) d) true).
+Proof. exact (@cli_keeps_every_mention_lemma). Qed.
+Print Assumptions cli_keeps_every_mention.
+
 (* ---- the transport shared by the fetches of one run keeps no per-request state ---- *)
 (* a request's TLS outcome is that of the same request on a fresh transport, whatever went before *)
 Theorem transport_outcome_history_free : forall W (rs : list (W * tr_req)) st,
